@@ -130,7 +130,7 @@ pub fn tape_checks(ctx: &Ctx) -> Vec<(&'static str, Box<CheckFn<'_>>)> {
 	vec![(
 		"bytes",
 		Box::new(move |g: &mut Gen, stats: &mut Stats| {
-			let e = *g.pick(&entries);
+			let e = pick_entry(g, &entries);
 			let (mut bytes, family) = gen_input(&e.ty, g, 256);
 			if e.is_recursive() && bytes.len() > 256 {
 				// plain decode recurses once per nesting level of the input; deep inputs belong to C11
